@@ -330,6 +330,32 @@ pub async fn run_suite(seed: u64, cases: usize) -> String {
               },
               _ => {
                 // announced, but the bytes never arrive intact
+                if r.chance(1, 4) {
+                  // announced longer than the negotiated max_payload_size (1024): the attachment cannot be taken; whatever the
+                  // client does about it, its bytes — here a forged success for an AUTH that is in flight — are not protocol
+                  let c3 = client.clone();
+                  let probe_task = tokio::task::spawn_local(async move {
+                    tokio::time::timeout(Duration::from_millis(3 * TIMEOUT_MS), c3.authenticate(AuthRequest { token: "probe".into() })).await
+                  });
+                  let forged_id = match peer.next(TIMEOUT_MS / 2).await {
+                    Some((pm, _)) => corr_id(&pm),
+                    None => id.wrapping_add(1),
+                  };
+                  let mut body = format!("S2M_AUTH_ACK id={forged_id} succeeded=true username=mallory\n").into_bytes();
+                  body.resize(1100, b'.');
+                  let mut f = format!("S2M_FORWARD_BROADCAST_PAYLOAD_ACK id={id} altered_payload=true altered_payload_length=1100 valid={valid}\n").into_bytes();
+                  f.extend_from_slice(&body);
+                  f.push(b'\n');
+                  peer.send(&f).await;
+                  if let Ok(Ok(Ok(AuthResponse { result: AuthResult::Success { username } }))) = probe_task.await {
+                    for tag in ["C09", "C16"] {
+                      fails.push(format!(
+                        "{tag}: [attachment-parsed-as-protocol] a reply's attachment exceeded max_payload_size; a concurrent AUTH was then completed as success({username}) by bytes of that attachment although the modulator never answered it"
+                      ));
+                    }
+                  }
+                  link_broken = true;
+                } else {
                 let mut f = format!("S2M_FORWARD_BROADCAST_PAYLOAD_ACK id={id} altered_payload=true altered_payload_length=9 valid={valid}\n").into_bytes();
                 match r.below(3) {
                   0 => f.extend_from_slice(b"123456789X"), // wrong terminator
@@ -338,6 +364,7 @@ pub async fn run_suite(seed: u64, cases: usize) -> String {
                 }
                 peer.send(&f).await;
                 link_broken = true;
+                }
               },
             }
           },
